@@ -1,0 +1,16 @@
+//go:build verif
+
+package io
+
+import "io"
+
+// VerifNewFileStream - (verification hook) a FileStream over an arbitrary reader,
+// so that read chunking can be scripted.
+func VerifNewFileStream(reader io.Reader) *FileStream {
+	return &FileStream{
+		reader:    reader,
+		encBuffer: []byte{},
+		path:      "<verif>",
+		hasRead:   false,
+	}
+}
